@@ -63,7 +63,9 @@ def dim_record(d):
 
 def mc_defs(scn):
     """operator definitions placed in the generated MC module"""
+    import configs
     return {
+        "MC_Configs": configs.tla_configs(scn.get("configs") or [configs.DEFAULT]),
         "MC_Dims": "<<" + ", ".join(dim_record(d) for d in scn["dims"]) + ">>",
         "MC_Weights": tla_value(set(scn["weights"])),
         "MC_YVals": tla_value(set(scn["yvals"])),
@@ -76,16 +78,18 @@ def mc_cfg(scn, family, invariants=("EmitInv",), extra_constants=(), sim=False):
         "  Dims <- MC_Dims",
         "  Weights <- MC_Weights",
         "  YVals <- MC_YVals",
+        "  Configs <- MC_Configs",
         "  MaxResp = %d" % scn["max_resp"],
         "  Weighted = %s" % ("TRUE" if scn["weighted"] else "FALSE"),
         "  ValidCounts = %s" % ("TRUE" if scn.get("valid_counts") else "FALSE"),
         "  SimMode = %s" % ("TRUE" if sim else "FALSE"),
+        "  SumNaN = %s" % ("TRUE" if scn.get("sum_nan") else "FALSE"),
         "  Scn = %s" % tla_value(scn["name"]),
         "  Family = %s" % tla_value(family),
         "  MinBase = %d" % scn["min_base"],
     ]
     lines += ["  " + c for c in extra_constants]
-    lines += ["SPECIFICATION Spec", "CHECK_DEADLOCK FALSE"]
+    lines += ["SPECIFICATION SpecV", "CHECK_DEADLOCK FALSE"]
     lines += ["INVARIANT " + i for i in invariants]
     return lines
 
